@@ -55,14 +55,16 @@ pub fn run_case(line: &str) -> String {
         }
         "rt" => {
             let t = read_term(&mut Toks::new(rest));
+            let tin = term_str(&t);
             match erltf::encode(&t) {
-                Err(e) => format!("enc=err:{}", ekind(&e)),
+                Err(e) => format!("in={} ; enc=err:{}", tin, ekind(&e)),
                 Ok(b) => match erltf::decode(&b) {
-                    Err(e) => format!("enc={} ; dec=err:{}", hex(&b), dkind(&e)),
+                    Err(e) => format!("in={} ; enc={} ; dec=err:{}", tin, hex(&b), dkind(&e)),
                     Ok(d) => {
                         let re = enc_str(&d);
                         format!(
-                            "enc={} ; dec={} ; re={}",
+                            "in={} ; enc={} ; dec={} ; re={}",
+                            tin,
                             hex(&b),
                             term_str(&d),
                             if re == hex(&b) { "same".to_string() } else { re }
